@@ -15,6 +15,8 @@ import Fir.Model.SimdVertU16
 import Fir.Model.SimdU8x1
 import Fir.Model.SimdU8x2
 import Fir.Model.SimdU16x1
+import Fir.Model.SimdU16x4
+import Fir.Model.SimdU16x2
 namespace Fir
 
 /-- C02 tolerance between two back-ends: integers identical, f32 a few ulps of a re-associated f64 sum -/
@@ -204,6 +206,36 @@ def handleKernel (fs : List (String × String)) : String :=
                 return some s!"lane model of the SSE4.1 U16 horizontal kernels: pixel ({x},{y}): model={px} got={got[y * dw + x]!}"
           return none
         else none
+      -- RGBA16 on SSE4.1, horizontal pass (four-row blocks and leftover rows do the same per row)
+      let lane164 : Option String :=
+        if p.kind == .u16 ∧ p.n == 4 ∧ ext == "sse4" ∧ pass == "h" ∧ got.size == dw * dh * 4 then Id.run do
+          let q := normalize32 c
+          for y in [0:dh] do
+            let row : List Int := (List.range (sw * 4)).map fun i => src[(offset + y) * sw * 4 + i]!
+            for x in [0:dw] do
+              let (start, ks) := q.chunks.getD x (0, #[])
+              let px := SimdU16x4.pixel q.precision row start ks.toList
+              for ch in [0:4] do
+                if px.getD ch 0 ≠ got[(y * dw + x) * 4 + ch]! then
+                  return some s!"lane model of the SSE4.1 U16x4 horizontal kernels: pixel ({x},{y}) channel {ch}: model={px.getD ch 0} got={got[(y * dw + x) * 4 + ch]!}"
+          return none
+        else none
+      -- LA16 on SSE4.1, horizontal pass
+      let lane162 : Option String :=
+        if p.kind == .u16 ∧ p.n == 2 ∧ ext == "sse4" ∧ pass == "h" ∧ got.size == dw * dh * 2 then Id.run do
+          let q := normalize32 c
+          for y in [0:dh] do
+            let row : List Int := (List.range (sw * 2)).map fun i => src[(offset + y) * sw * 2 + i]!
+            for x in [0:dw] do
+              let (start, ks) := q.chunks.getD x (0, #[])
+              let px := SimdU16x2.pixel q.precision row start ks.toList
+              for ch in [0:2] do
+                if px.getD ch 0 ≠ got[(y * dw + x) * 2 + ch]! then
+                  return some s!"lane model of the SSE4.1 U16x2 horizontal kernels: pixel ({x},{y}) channel {ch}: model={px.getD ch 0} got={got[(y * dw + x) * 2 + ch]!}"
+          return none
+        else none
+      let lane164 := match lane164 with | some e => some e | none => lane162
+      let lane16 := match lane16 with | some e => some e | none => lane164
       let lane2 := match lane2 with | some e => some e | none => lane16
       let lane1 := match lane1 with | some e => some e | none => lane2
       let lane := match lane, laneV, lane3, laneV16, lane1 with
